@@ -61,7 +61,7 @@ def proof_step(prop, theorems, module, thorough=False, pre=None):
     if bad:
         res["failed"] = ["<forbidden-token> " + b for b in bad[:5]]
         return res
-    audit = os.path.join(LEAN, "Audit", "%s.lean" % prop)
+    audit = os.path.join(LEAN, "Audit", "%s%s.lean" % (prop, ("_" + str(os.getpid())) if os.environ.get("VERIF_SCRATCH_DIR") else ""))
     os.makedirs(os.path.dirname(audit), exist_ok=True)
     with open(audit, "w") as f:
         f.write("import %s\n" % module)
@@ -157,7 +157,7 @@ def match_known(prop, f, known):
 
 
 def write_replay(prop, seed, n, payload):
-    d = os.path.join(VERIF, "replays")
+    d = os.environ.get("VERIF_SCRATCH_DIR") or os.path.join(VERIF, "replays")   # scratch dir: testing the checks themselves
     os.makedirs(d, exist_ok=True)
     path = os.path.join(d, "%s-%d-%d.json" % (prop, seed, n))
     payload = dict(payload)
@@ -165,7 +165,7 @@ def write_replay(prop, seed, n, payload):
     payload["rerun"] = "./check %s --replay replays/%s" % (prop, os.path.basename(path))
     with open(path, "w") as f:
         json.dump(payload, f, indent=1, default=str)
-    return os.path.relpath(path, VERIF)
+    return os.path.relpath(path, VERIF) if path.startswith(VERIF) else path
 
 
 def main():
@@ -266,7 +266,7 @@ def main():
     }
     if "leanchecker" in pr:
         ev["coverage"]["leanchecker"] = pr["leanchecker"]
-    if not a.replay:
+    if not a.replay and not os.environ.get("VERIF_SCRATCH_DIR"):
         os.makedirs(os.path.join(VERIF, "evidence"), exist_ok=True)
         with open(os.path.join(VERIF, "evidence", "%s.json" % prop), "w") as f:
             json.dump(ev, f, indent=1, default=str)
